@@ -849,12 +849,23 @@ pub fn timeout(rng: &mut Rng) -> Program {
         a.fail_on_timeout = g.rng.chance(1, 3);
     }
     a.cfg_order = g.rng.below(4) as u8;
+    // timers on an actor with a handler timeout: an abandoned tick handler must not disturb later ticks
+    if g.rng.chance(1, 4) {
+        let p = *g.rng.pick(&[5u64, 8, 13]);
+        a.started.push(if g.rng.chance(2, 3) { SStep::Interval(p) } else { SStep::IntervalWith(p) });
+        if !no_timeout && !a.fail_on_timeout && g.rng.chance(1, 2) {
+            a.tick_work = t + 1; // every tick handler is abandoned; p > t + 1 keeps the actor below saturation
+            if p <= t + 1 {
+                a.tick_work = 0;
+            }
+        }
+    }
     // lifecycle callbacks are not subject to the handler timeout, however long they take
     if g.rng.chance(1, 4) {
         a.stopped = vec![SStep::Sleep(*g.rng.pick(&[1u64, 3, 9]))];
     }
     if g.rng.chance(1, 6) {
-        a.started = vec![SStep::Sleep(*g.rng.pick(&[1u64, 3, 9]))];
+        a.started.insert(0, SStep::Sleep(*g.rng.pick(&[1u64, 3, 9])));
     }
     a.strategy = *g.rng.pick(&[Strategy::RestartOnly, Strategy::Recreate, Strategy::NonRestartable]);
     g.prog.actors.push(a);
